@@ -125,6 +125,23 @@ func rowidRule(c *Ctx, rule, wname string, addRow *ssa.Function, typ *types.Name
 	var loads []*ssa.UnOp
 	allInstrs(addRow, func(i ssa.Instruction) {
 		if u, ok := i.(*ssa.UnOp); ok && u.Op == token.MUL && isCtrAddr(u.X) {
+			// a load whose only use is `load + 1` stored back into the counter is part of an increment, not a read of the id
+			incOnly := true
+			for _, r := range referrers(u) {
+				b, isBin := r.(*ssa.BinOp)
+				if !isBin || b.Op != token.ADD {
+					incOnly = false
+					break
+				}
+				for _, rr := range referrers(b) {
+					if st, isSt := rr.(*ssa.Store); !isSt || !isCtrAddr(st.Addr) {
+						incOnly = false
+					}
+				}
+			}
+			if incOnly && len(referrers(u)) > 0 {
+				return
+			}
 			loads = append(loads, u)
 		}
 	})
